@@ -111,6 +111,26 @@ fn check_record(contents: &BTreeMap<i32, Vec<u8>>, scratch: &mut Vec<u8>, c: i32
     }
 }
 
+/// A record whose content is the type code alone (content length 2 words).
+fn check_bare_record(c: i32) -> Result<(), Fail> {
+    let bytes = c.to_le_bytes();
+    let mut cur = Cursor::new(&bytes[..]);
+    match (Ty::from_code(c), Shape::read_from(&mut cur, 4)) {
+        (None, Err(Error::InvalidShapeType(x))) if x == c => Ok(()),
+        (None, other) => Err(Fail::new(
+            "invalid-record-accepted",
+            format!("4-byte record with invalid code {}: {:?}, expected InvalidShapeType({})", c, other.map(|s| variant_ty(&s)), c),
+        )),
+        (Some(t), Ok(s)) => {
+            if variant_ty(&s) != t {
+                return Err(Fail::new("record-type", format!("4-byte record with code {} ({}) read as {:?}", c, t.name(), variant_ty(&s))));
+            }
+            Ok(())
+        }
+        (Some(_), Err(_)) => Ok(()), // a truncated record of a valid type may be refused
+    }
+}
+
 /// Whole-file path for one code: header type c and a record of type c through ShapeReader.
 fn check_reader(c: i32) -> Result<(), Fail> {
     let t = Ty::from_code(c);
@@ -183,6 +203,7 @@ fn check_all_paths(c: i32) -> Result<(), Fail> {
     let contents = valid_contents();
     let mut scratch = vec![0u8; 20];
     check_record(&contents, &mut scratch, c)?;
+    check_bare_record(c)?;
     check_reader(c)
 }
 
@@ -229,7 +250,7 @@ impl SubCheck for CodeTable {
                             }
                             if full_files || small || is_int {
                                 n_file += 2;
-                                if let Err(f) = check_header(&mut hdr, c).and_then(|_| check_record(&contents, &mut scratch, c)) {
+                                if let Err(f) = check_header(&mut hdr, c).and_then(|_| check_record(&contents, &mut scratch, c)).and_then(|_| check_bare_record(c)) {
                                     return (n_from, n_file, n_int, Some((c, f)));
                                 }
                             }
@@ -242,7 +263,7 @@ impl SubCheck for CodeTable {
                                 x ^= x << 17;
                                 let c = x as u32 as i32;
                                 n_file += 2;
-                                if let Err(f) = check_header(&mut hdr, c).and_then(|_| check_record(&contents, &mut scratch, c)) {
+                                if let Err(f) = check_header(&mut hdr, c).and_then(|_| check_record(&contents, &mut scratch, c)).and_then(|_| check_bare_record(c)) {
                                     return (n_from, n_file, n_int, Some((c, f)));
                                 }
                             }
@@ -256,8 +277,8 @@ impl SubCheck for CodeTable {
         let mut rep = SubReport {
             name: "codetable".into(),
             rule: "exhaustive: ShapeType::from(c) for all 2^32 codes c against an independent table (Some exactly for the 14 ESRI codes, \
-                   `as i32` returns c, has_z/has_m/is_multipart/Display per table); file path (Header::read_from, Shape::read_from with \
-                   the code in place) exhaustive in thorough, in quick for |c|<=2^17, all single-bit/byte-swapped/+-1,2 neighbours of \
+                   `as i32` returns c, has_z/has_m/is_multipart/Display per table); file path (Header::read_from; Shape::read_from with the code in a full record and in a record \
+                   that consists of the type code alone) exhaustive in thorough, in quick for |c|<=2^17, all single-bit/byte-swapped/+-1,2 neighbours of \
                    the 14 codes and 4M generated codes; ShapeReader path for all neighbour codes. Non-trivial: the 14 valid codes and \
                    their neighbours (single bit flip, byte swap, +-1, +-2, negation, +2^8k), counted as visited"
                 .into(),
